@@ -5,8 +5,10 @@ package main
 import (
 	"flag"
 	"fmt"
+	"io"
 	"os"
 
+	"k8s.io/klog/v2"
 	"psaverif/internal/cq"
 	"psaverif/internal/gen"
 	"psaverif/internal/streams"
@@ -24,6 +26,8 @@ func main() {
 	out := fs.String("out", ".", "output directory")
 	shards := fs.Int("shards", 16, "number of case files")
 	fs.Parse(os.Args[2:])
+	klog.LogToStderr(false)
+	klog.SetOutput(io.Discard)
 	var set *cq.Set
 	var in *cq.Interner
 	switch stream {
@@ -44,6 +48,26 @@ func main() {
 		set, in = streams.Pods("c02", *seed, *n, "Model.Api Model.Pod Model.Checks Corr.PodCases Corr.C02", "pod_case", "run_c02", true)
 	case "c03":
 		set, in = streams.Pods("c03", *seed, *n, "Model.Api Model.Pod Model.Checks Corr.PodCases Corr.C02", "pod_case", "run_c03", true)
+	case "c01":
+		set, in = streams.Adm("c01", *seed, *n, "pf01", []string{"pod"})
+	case "c06":
+		set, in = streams.Adm("c06", *seed, *n, "pf06", []string{"pod", "controller", "namespace"})
+	case "c07":
+		set, in = streams.Adm("c07", *seed, *n, "pf07", []string{"pod", "controller", "namespace"})
+	case "c08":
+		set, in = streams.Adm("c08", *seed, *n, "pf08", []string{"pod", "controller"})
+	case "c09":
+		set, in = streams.Adm("c09", *seed, *n, "pf09", []string{"controller"})
+	case "c10":
+		set, in = streams.Adm("c10", *seed, *n, "pf10", []string{"pod"})
+	case "c11":
+		set, in = streams.Adm("c11", *seed, *n, "pf11", []string{"namespace"})
+	case "c12":
+		set, in = streams.Adm("c12", *seed, *n, "pf12", []string{"namespace"})
+	case "c18adm":
+		set, in = streams.Adm("c18adm", *seed, *n, "pf18", []string{"pod", "controller", "namespace"})
+	case "admall":
+		set, in = streams.Adm("admall", *seed, *n, "pf_all", []string{"pod", "controller", "namespace"})
 	case "podstext":
 		set, in = streams.Pods("podstext", *seed, *n, "Model.Api Model.Pod Model.Checks Corr.PodCases", "pod_case", "run_pods_text", true)
 	default:
